@@ -54,6 +54,10 @@ int STUB(pthread_sigmask)(int how, const sigset_t *set, sigset_t *old)
 		else if (how == SIG_SETMASK)
 			g_mask = set->__val[0];
 	}
+	/* the mask must not be opened while the lock is still held: a signal delivered then makes the
+	 * handler spin on the lock its own thread holds */
+	if (g_lock_held && g_mask != ~0UL)
+		g_lock_with_unblocked++;
 	return 0;
 }
 int STUB(pthread_spin_init)(pthread_spinlock_t *l, int s) { return 0; }
@@ -180,7 +184,7 @@ void h_event(void)
 	__CPROVER_assert(g_handler_calls == 1, "[C10] the user handler runs once per wake-up event");
 	__CPROVER_assert(g_mask == 0x5a5aUL && !g_lock_held, "[C10] mask and lock are balanced");
 	__CPROVER_assert(g_lock_acq == ((v_is[0].flags & IV_SIGNAL_FLAG_THIS_THREAD) ? 0 : 1), "[C10,C14] a process-wide interest's flag is cleared under the signal lock, a this-thread one without it");
-	__CPROVER_assert(g_lock_with_unblocked == 0, "[C10] the lock is only held with all signals blocked (the signal handler takes the same lock)");
+	__CPROVER_assert(g_lock_with_unblocked == 0, "[C10] the lock is only held with all signals blocked, from before it is taken until after it is released (the signal handler takes the same lock)");
 	CANARY();
 }
 
